@@ -97,22 +97,32 @@ def run(cx):
     # ---------------------------------------------------------------- G1 verify_dnskey
     f = cx.fn('C07.G1', N + 'verify_dnskey')
     if f:
-        DSREC = r"<Filter<I;P> as Iterator>::next\(Iterator::filter\(slice::iter\(arg2\),closure:dnssec::verify_dnskey::\{closure@filter#0\}\)\)@Some\.0"
+        # the DS record under test comes from `ds_records.iter().filter(|ds| ds.proof.is_secure())`, or from a plain loop over the slice
+        # whose body skips a record that is not secure before anything else is decided from it
+        filt = (N + 'verify_dnskey::{closure@filter#0}') in cx.prog.fns or bool(cx.calls(f, r'Iterator::filter$'))
+        if filt:
+            DSREC = r"<Filter<I;P> as Iterator>::next\(Iterator::filter\(slice::iter\(arg2\),closure:dnssec::verify_dnskey::\{closure@filter#0\}\)\)@Some\.0"
+        else:
+            DSREC = r"<Iter<'a;T> as Iterator>::next\((?:arg2|slice::iter\(arg2\))\)@Some\.0"
         sec = cx.returns(f, r'^Result::Ok\(Proof::Secure\)$')
-        cx.guard('C07.G1', sec, {
+        req = {
             'key-algorithm-supported': r'^Algorithm::is_supported\(<DNSKEY as Verifier>::algorithm\(RecordRef::data\(arg1\)\)\)$',
             'ds-algorithm-equals-key-algorithm': rf'^eq:Algorithm\(<DNSKEY as Verifier>::algorithm\(RecordRef::data\(arg1\)\),DS::algorithm\({DSREC}\.data\)\)$',
             'ds-key-tag-equals-key-tag': rf'^eq\(DS::key_tag\({DSREC}\.data\),try\(Result::map_err\(DNSKEY::calculate_key_tag\(RecordRef::data\(arg1\)\),.*\)\)@Continue\.0\)$',
             'collision-cap': r'^le\(.*,const:dnssec::MAX_KEY_TAG_COLLISIONS\)$',
             'ds-digest-covers-key': rf'^Result::unwrap_or\(DS::covers\({DSREC}\.data,RecordRef::name\(arg1\),RecordRef::data\(arg1\)\),false\)$',
-        }, expect=1, fn=f)
+        }
+        if not filt:
+            req['only-secure-ds-records'] = rf'^Proof::is_secure\({DSREC}\.proof\)$'
+        cx.guard('C07.G1', sec, req, expect=1, fn=f)
         oks = cx.returns(f, r'^Result::Ok\(')
         cx.check('C07.G1', len(oks) == 1, f.path, 'returns', 'single-ok-return', '; '.join(s.term for s in oks))
-    c1 = cx.fn('C07.G1', N + 'verify_dnskey::{closure@filter#0}')
-    if c1:
-        t = cx.true_returns(c1)
-        cx.check('C07.G1', len(t) == 1 and t[0].term == 'Proof::is_secure(arg2.proof)', c1.path, 'ret', 'only-secure-ds-records',
-                 '; '.join(s.term for s in t))
+        if filt:
+            c1 = cx.fn('C07.G1', N + 'verify_dnskey::{closure@filter#0}')
+            if c1:
+                t = cx.true_returns(c1)
+                cx.check('C07.G1', len(t) == 1 and t[0].term == 'Proof::is_secure(arg2.proof)', c1.path, 'ret', 'only-secure-ds-records',
+                         '; '.join(s.term for s in t))
 
     # ---------------------------------------------------------------- G5 signer encloses owner (F8)
     f = cx.fn('C07.G5', N + 'RrsigValidity::check')
@@ -156,7 +166,7 @@ def run(cx):
             t = cx.true_returns(c7)
             cx.check('C07.G2', len(t) == 1 and t[0].term == 'Proof::is_secure(arg2.0)', c7.path, 'ret', 'all-secure-predicate', '; '.join(s.term for s in t))
         ins = cx.returns(f, r'Proof::Insecure')
-        cx.guard('C07.G2', ins, {'ds-set-non-empty': r'^!Vec::is_empty\(',
+        cx.guard('C07.G2', ins, {'ds-set-non-empty': r'^!(?:Vec|slice)::is_empty\(',
                                  'all-usable-ds-unsupported': r'^Iterator::all\(Iterator::filter\(slice::iter\('}, expect=1, fn=f)
         # DS records are fetched unless every key is a trust anchor or the owner is the root
         ds = cx.calls(f, r'DnssecDnsHandle::fetch_ds_records$')
@@ -169,14 +179,55 @@ def run(cx):
         ins = cx.returns(f, r'Proof::Insecure')
         cx.check('C07.G2', len(ins) == 2, f.path, 'returns', 'insecure-count', str(len(ins)))
         cx.guard('C07.G2', ins, {'validated-DS-response(self.lookup)': rf'^ok\({LK}@Ready\.0\)$'}, fn=f)
+        # The two tests over the validated answer section are decided by what they MEAN, whichever combinator spells them:
+        #   exists(C): any(filter(iter(answers), F), A) with C = F's and A's conjuncts | any(iter(answers), A)
+        #   none(C)  : !any(iter(answers), A) | all(iter(answers), B) with B = !C (single literal)
+        ANS = rf'slice::iter\({LK}@Ready\.0@Ok\.0\.answers\)'
+        CL = r'closure:(DnssecDnsHandle::fetch_ds_records::\{closure#0\}::\{closure@\w+#\d+\})'
+        DS_T, SEC_T = 'eq:RecordType(RecordType::DS,Record::record_type(arg2))', 'Proof::is_secure(arg2.proof)'
+
+        def conj(cname):
+            c = cx.prog.fns.get('hickory_net::dnssec::' + cname)
+            if c is None:
+                return None
+            t = cx.true_returns(c)
+            if len(t) != 1:
+                return None
+            from core import path_props
+            return frozenset(t[0].extra) | frozenset(shorten(x) for x in (path_props(c, t[0].bb) or []) if shorten(x) != 'true')
+
+        def meaning(prop):
+            neg = prop.startswith('!')
+            q = prop[1:] if neg else prop
+            m = re.match(rf"^Iterator::any\(Iterator::filter\({ANS},{CL}\),{CL}\)$", q)
+            if m:
+                a, b = conj(m.group(1)), conj(m.group(2))
+                return None if a is None or b is None else (('none' if neg else 'exists'), a | b)
+            m = re.match(rf"^<Iter<'a;T> as Iterator>::any\({ANS},{CL}\)$", q)
+            if m:
+                a = conj(m.group(1))
+                return None if a is None else (('none' if neg else 'exists'), a)
+            m = re.match(rf"^<Iter<'a;T> as Iterator>::all\({ANS},{CL}\)$", q)
+            if m and not neg:
+                a = conj(m.group(1))
+                if a is not None and len(a) == 1 and next(iter(a)).startswith('!'):
+                    return ('none', frozenset({next(iter(a))[1:]}))
+            return None
+        allp = {shorten(p_) for bb in range(len(f.blocks)) for ps in f.edge_props(bb).values() for p_ in ps}
+
+        def rx_for(want):
+            hits = [p_ for p_ in sorted(allp) if meaning(p_) == want]
+            return '^(?:' + '|'.join(re.escape(h) for h in hits) + ')$' if hits else r'^\b$'
+        SEC_PRESENT = rx_for(('exists', frozenset({DS_T, SEC_T})))
+        NO_DS = rx_for(('none', frozenset({DS_T})))
         nods = [s for s in ins if 'DsResponseInsecure' in s.term]
-        cx.guard('C07.G2', nods, {'no-DS-record-in-validated-response':
-                 rf"^!<Iter<'a;T> as Iterator>::any\(slice::iter\({LK}@Ready\.0@Ok\.0\.answers\),closure:.*\)$"}, expect=1, fn=f)
+        cx.guard('C07.G2', nods, {'no-DS-record-in-validated-response': NO_DS}, expect=1, fn=f)
         unk = [s for s in ins if 'UnknownKeyAlgorithm' in s.term]
-        cx.guard('C07.G2', unk, {'secure-DS-present': rf'^Iterator::any\(Iterator::filter\(slice::iter\({LK}@Ready\.0@Ok\.0\.answers\),',
-                                 'all-unknown': r'^Option::unwrap_or\(phi\(Option::None\|Option::Some\(false\)\),false\)$'}, expect=1, fn=f)
+        ALLU = r'phi\(Option::None\|Option::Some\(false\)\)'
+        cx.guard('C07.G2', unk, {'secure-DS-present': SEC_PRESENT,
+                                 'all-unknown': rf'^Option::unwrap_or\({ALLU},false\)$|^eq:Option\(Option::Some\(true\),{ALLU}\)$|^eq:Option\({ALLU},Option::Some\(true\)\)$'}, expect=1, fn=f)
         oks = cx.returns(f, r'^Result::Ok\(')
-        cx.guard('C07.G2', oks, {'secure-DS-present': rf'^Iterator::any\(Iterator::filter\(slice::iter\({LK}@Ready\.0@Ok\.0\.answers\),',
+        cx.guard('C07.G2', oks, {'secure-DS-present': SEC_PRESENT,
                                  'supported-non-empty': r'^!Vec::is_empty\('}, expect=1, fn=f)
 
     # find_ds_records: the search for the enclosing zone cut walks up from the name and asks the zone it finds for its DS; "no DS,
